@@ -3,6 +3,7 @@
 mod range;
 mod pattern;
 mod service;
+mod error;
 
 fn main() {
     let args: Vec<String> = std::env::args().skip(1).collect();
@@ -12,6 +13,8 @@ fn main() {
         Some("pattern-search") => pattern::search(),
         Some("pattern") => pattern::one(&args[1..]),
         Some("route") => service::route(&args[1..]),
+        Some("error-table") => error::table(),
+        Some("error-one") => error::one(&args[1..]),
         _ => serde_json::json!({"error": "usage: replay <range-search|range|pattern-search|pattern> …"}),
     };
     println!("{out}");
